@@ -91,6 +91,14 @@ def run(ctx):
                         # the drop-flag epilogue re-tests the same discriminant: keep the first test only
                         cerr = [e_ for e_ in cerr if not any(e_[0] in cf.reachable(o_[1]) for o_ in cerr if o_ != e_)]
                         okc = bool(cerr)
+                        if not cerr:
+                            # the result goes straight into map_err(|(err, started)| ..): the closure is where the started commands are dropped
+                            for mb, mt in cf.calls_to(lambda f_: M.callee_str(f_) == "std::result::Result::<T, E>::map_err"):
+                                a0, a1 = Tc.operand(mt["args"][0]), Tc.operand(mt["args"][1])
+                                if a0[0] == "call" and a0[3] == cbb and a1[0] == "agg" and a1[1][0] == "closure" and a1[1][1] in prog.fns:
+                                    g = prog.fns[a1[1][1]]
+                                    dr = [b for b in g.live_blocks() if is_popen_drop(g, b)]
+                                    okc = bool(dr) and all(dominated_by_blocks(g, r, dr) for r in g.return_blocks())
                         for ce in cerr:
                             aft = cf.reachable(ce[1])
                             dr = [b for b in aft if is_popen_drop(cf, b)]
@@ -164,18 +172,28 @@ def run(ctx):
     nheld = 0
     for p, f in sorted(prog.fns.items()):
         mk = [bb for bb, t in f.calls() if M.callee_str(t["f"]) in PIPES]
-        if not mk:
+        tk = [bb for bb, t in f.calls() if M.callee_str(t["f"]) == "std::option::Option::<T>::take"]
+        if not mk and not tk:
             continue
         Tf = M.Terms(f)
         read_ends = []
+        def _taken_output(u):
+            # x.stdout.take() / x.stderr.take() of a started Popen: the parent's read end of that child's output pipe
+            if u[0] == "call" and u[1] == "std::option::Option::<T>::take" and u[2]:
+                src_ = M.noref(u[2][0])
+                return src_[0] == "field" and src_[2] in ("stdout", "stderr")
+            return False
         for l in range(len(f.locals)):
-            if "std::fs::File" != f.locals[l]["ty"]:
+            ty_ = f.locals[l]["ty"]
+            if l <= f.arg_count or not ("std::fs::File" in ty_ or "popen::Redirection" in ty_):
                 continue
             for a in M.alts(M.noref(Tf.local(l))):
-                if a[0] == "field" and a[2] == "0":
+                if "std::fs::File" == ty_ and a[0] == "field" and a[2] == "0":
                     b_ = M.strip(a[1])
                     if b_[0] == "call" and b_[1] in PIPES:
                         read_ends.append(l)
+                if M.contains(a, _taken_output):
+                    read_ends.append(l)
         read_ends = sorted(set(read_ends))
         if not read_ends:
             continue
